@@ -17,7 +17,7 @@ from .. import cover, gen, itpspec, ref
 LEVEL = 'exploration'
 JOBS = {'quick': 2, 'thorough': 16}
 REQUIRED_MONITORS = ('topology_vs_truth', 'connectivity_vs_unionfind', 'copy_isolation')
-REQUIRED_CLASSES = ('copy:after-modification', 'numbering:gaps', 'numbering:offset', 'bonds-three-way', 'decorated', 'kind:forest', 'kind:cyclic', 'kind:disconnected-cyclic', 'bonds:exactly-n-1-disconnected', 'conditional-block-with-else',
+REQUIRED_CLASSES = ('include-target-exists', 'copy:after-modification', 'numbering:gaps', 'numbering:offset', 'bonds-three-way', 'decorated', 'kind:forest', 'kind:cyclic', 'kind:disconnected-cyclic', 'bonds:exactly-n-1-disconnected', 'conditional-block-with-else',
                     'kind:chain', 'long-chain', 'multi-residue', 'connected:yes', 'connected:no',
                     'repeated-section', 'are_connected:Molecule.atoms', 'shipped')
 RULE = ('generated topology files: graph kind x size (1..3000) x atom numbering (plain/offset/gaps) x bond split over '
@@ -40,6 +40,11 @@ def setup(ctx):
         _cov.watch_attr(mod, name)
     _cov.start()
     _tmp['dir'] = tempfile.mkdtemp(prefix='gmv_c15_')
+    # the file named by the generated '#include "other.itp"' lines exists beside the topologies and lists bonded terms of
+    # its own (an elastic network kept in a separate file): a preprocessor line is ignored, whatever it points to
+    with open(os.path.join(_tmp['dir'], 'other.itp'), 'w') as fh:
+        fh.write('; extra bonded terms\n[ bonds ]\n' + ''.join(f'  {i} {i + 2} 1 0.5 500\n' for i in range(1, 40))
+                 + '[ constraints ]\n  1 4 1 0.3\n  2 5 1 0.3\n[ pairs ]\n  1 6 1\n  3 7 1\n')
     sys.setrecursionlimit(1000)
 
 
@@ -177,6 +182,17 @@ def run_gen(ctx, case):
     path = os.path.join(_tmp['dir'], f't{os.getpid()}.itp')
     with open(path, 'w') as fh:
         fh.write(text)
+    if '#include "ff.itp"' in text:
+        # the included file exists beside the topology and lists bonded terms between atoms of this very molecule
+        nums = truth['numbers']
+        with open(os.path.join(_tmp['dir'], 'ff.itp'), 'w') as fh:
+            fh.write('; extra bonded terms kept in a separate file\n[ bonds ]\n')
+            for _ in range(1 + len(nums) // 3):
+                a, b = (int(x) for x in rng.choice(len(nums), 2, replace=len(nums) < 2))
+                if a != b:
+                    fh.write(f'  {nums[a]} {nums[b]} 1 0.5 500\n')
+            fh.write('[ constraints ]\n' + (f'  {nums[0]} {nums[-1]} 1 0.3\n' if len(nums) > 1 else ''))
+        ctx.hit('include-target-exists')
     ctx.count('evaluations')
     for c in truth['classes']:
         ctx.hit('repeated-section' if c.startswith('repeated-section:') else c)
